@@ -83,10 +83,11 @@ func getDescription(raw interface{}) string {
 	}
 	if desc != "" {
 		sep := ""
-		if strings.ContainsRune(desc, '\n') {
+		if strings.ContainsRune(desc, '\n') || strings.HasSuffix(desc, `"`) || strings.HasSuffix(desc, `\`) {
+			// a closing quote or backslash must not touch the closing triple quote
 			sep = "\n"
 		}
-		desc = join([]string{`"""`, desc, `"""`}, sep)
+		desc = join([]string{`"""`, strings.Replace(desc, `"""`, `\"""`, -1), `"""`}, sep)
 	}
 	return desc
 }
